@@ -9,7 +9,8 @@
 EXTENDS FetchTree, Json, IOUtils
 CONSTANTS MaxF, OrdF
 Shapes == ndJsonDeserialize(IOEnv.SHAPES)
-Kinds == {"Transport", "Non2xxNonJSON", "EmptyBody", "NonJSON", "ErrorsNoData", "DataNull", "WrongEntityCount"}
+Kinds == {"Transport", "Non2xxNonJSON", "EmptyBody", "NonJSON", "ErrorsNoData", "DataNull", "WrongEntityCount",
+          "PartialData", "Non2xxJSON"}
 
 VARIABLES si, fault, order
 gvars == <<si, fault, order>>
